@@ -132,7 +132,16 @@ func (pr *printer) node(n *Node, depth int) {
 	case KText:
 		w.WriteString(n.Text)
 	case KExpr:
-		w.WriteString("{ " + n.X.Src() + " }")
+		switch n.Sp % 4 {
+		case 1:
+			w.WriteString("{" + n.X.Src() + "}")
+		case 2:
+			w.WriteString("{  " + n.X.Src() + "  }")
+		case 3:
+			w.WriteString("{ " + n.X.Src() + "}")
+		default:
+			w.WriteString("{ " + n.X.Src() + " }")
+		}
 	case KElem:
 		w.WriteString("<" + n.Name)
 		pr.attrs(n.Attrs, depth, n.AttrsNL)
@@ -151,7 +160,11 @@ func (pr *printer) node(n *Node, depth int) {
 		pr.sep(n.End, depth)
 		w.WriteString("</" + n.Name + ">")
 	case KIf:
-		w.WriteString("if " + n.Cond.Src() + " {")
+		if n.Sp%3 == 1 {
+			w.WriteString("if " + n.Cond.Src() + "{")
+		} else {
+			w.WriteString("if " + n.Cond.Src() + " {")
+		}
 		pr.nodes(n.Kids, depth+1)
 		pr.sep(n.End, depth)
 		for _, ei := range n.ElseIfs {
@@ -166,7 +179,11 @@ func (pr *printer) node(n *Node, depth int) {
 		}
 		w.WriteString("}")
 	case KFor:
-		w.WriteString("for " + n.ForGo + " {")
+		if n.Sp%3 == 1 {
+			w.WriteString("for " + n.ForGo + "  {")
+		} else {
+			w.WriteString("for " + n.ForGo + " {")
+		}
 		pr.nodes(n.Kids, depth+1)
 		pr.sep(n.End, depth)
 		w.WriteString("}")
@@ -195,7 +212,11 @@ func (pr *printer) node(n *Node, depth int) {
 			w.WriteString("}")
 		}
 	case KSlot:
-		w.WriteString("{ children... }")
+		if n.Sp%3 == 1 {
+			w.WriteString("{children...}")
+		} else {
+			w.WriteString("{ children... }")
+		}
 	case KGoCode:
 		if n.VarName == "" {
 			w.WriteString("{{ " + n.Text + " }}")
